@@ -137,9 +137,11 @@ def beam_kM(v):
     return W, C
 
 
-def check_blade1d(led):
+def check_blade1d(led, only=None):
     sfx = {'s': ''}
     for fname, builder, scale in (('fk0f', beam_k0, lambda v: v['bf']), ('fkG0f', beam_kG0, lambda v: P.const(1)), ('fkMf', beam_kM, lambda v: P.const(1))):
+        if only and fname not in only:
+            continue
         def spec_of(v, builder=builder, scale=scale):
             W, C = builder(v)
             eta = {'s': 2 * v['ys'] / v['b'] - 1}
